@@ -132,3 +132,276 @@ Example tso_fenced_same_schedule :
   let y := trun true (tinit 2 0 bad_progs) bad_sched in
   treach true 2 0 bad_progs y /\ tpl y = [5; 6]%Z /\ tsl y = [5]%Z /\ tol y = [6]%Z.
 Proof. split; [apply treach_trun; constructor | vm_compute; auto]. Qed.
+
+(* ------------------------------------------------------------------ *)
+(* Invariant relating memory, buffer and view (fenced = true)           *)
+Local Open Scope Z_scope.
+
+(* the value, if any, that the buffer will eventually leave in slot sl of array k *)
+Definition hit (lgs : nat -> nat) (w : wr) (k : nat) (sl : Z) : option Z :=
+  match w with
+  | WEl k' j v => if (k' =? k)%nat && (j mod 2 ^ Z.of_nat (lgs k) =? sl) then Some v else None
+  | WBot _ => None
+  end.
+Fixpoint lastw (lgs : nat -> nat) (bf : list wr) (k : nat) (sl : Z) : option Z :=
+  match bf with
+  | [] => None
+  | h :: r => match lastw lgs r k sl with Some v => Some v | None => hit lgs h k sl end
+  end.
+(* bottom as the owner sees it *)
+Fixpoint vbot (bf : list wr) (m : Z) : Z :=
+  match bf with
+  | [] => m
+  | WBot w :: r => vbot r w
+  | WEl _ _ _ :: r => vbot r m
+  end.
+(* buffered stores of bottom only go up, from memory's value to the view's;
+   a buffered element store of the current array is to an index at or above
+   the bottom value in effect before it (and at most the view's bottom) *)
+Fixpoint bwf (lo : Z) (bf : list wr) (hi : Z) (cu : nat) : Prop :=
+  match bf with
+  | [] => lo <= hi
+  | WBot w :: r => lo <= w /\ bwf w r hi cu
+  | WEl k j v :: r => (k = cu -> lo <= j <= hi) /\ bwf lo r hi cu
+  end.
+
+Lemma lastw_app1 lgs bf w k sl :
+  lastw lgs (bf ++ [w]) k sl = match hit lgs w k sl with Some v => Some v | None => lastw lgs bf k sl end.
+Proof.
+  induction bf as [|h r IH]; cbn [app lastw].
+  - destruct (hit lgs w k sl); reflexivity.
+  - rewrite IH. destruct (hit lgs w k sl); [reflexivity|]. reflexivity.
+Qed.
+
+Lemma lastw_ext lgs lgs' bf k sl : (forall k, lgs k = lgs' k) -> lastw lgs bf k sl = lastw lgs' bf k sl.
+Proof.
+  intros E. induction bf as [|h r IH]; cbn; auto. rewrite IH.
+  destruct (lastw lgs' r k sl); auto. unfold hit. destruct h; auto. rewrite E. reflexivity.
+Qed.
+
+Lemma lastw_none lgs bf k sl :
+  (forall j v, In (WEl k j v) bf -> j mod 2 ^ Z.of_nat (lgs k) <> sl) -> lastw lgs bf k sl = None.
+Proof.
+  induction bf as [|h r IH]; intros H; cbn; auto.
+  rewrite IH by (intros j v Hin; apply (H j v); right; auto).
+  destruct h as [w|k' j v]; cbn; auto.
+  destruct (Nat.eqb_spec k' k) as [->|Hne]; cbn; auto.
+  destruct (Z.eqb_spec (j mod 2 ^ Z.of_nat (lgs k)) sl) as [E|E]; auto.
+  exfalso. apply (H j v); [left; reflexivity|exact E].
+Qed.
+
+Lemma vbot_app_bot bf m w : vbot (bf ++ [WBot w]) m = w.
+Proof. revert m. induction bf as [|[w0|k j v] r IH]; intros m; cbn; auto. Qed.
+Lemma vbot_app_el bf m k j v : vbot (bf ++ [WEl k j v]) m = vbot bf m.
+Proof. revert m. induction bf as [|[w0|k0 j0 v0] r IH]; intros m; cbn; auto. Qed.
+
+Lemma bwf_le lo bf hi cu : bwf lo bf hi cu -> lo <= hi.
+Proof.
+  revert lo. induction bf as [|[w|k j v] r IH]; intros lo; cbn; auto.
+  - intros [A B]. specialize (IH _ B). lia.
+  - intros [A B]. auto.
+Qed.
+Lemma bwf_vbot lo bf hi cu : bwf lo bf hi cu -> lo <= vbot bf lo <= hi.
+Proof.
+  revert lo. induction bf as [|[w|k j v] r IH]; intros lo; cbn.
+  - lia.
+  - intros [A B]. specialize (IH _ B). lia.
+  - intros [A B]. auto.
+Qed.
+Lemma bwf_app_bot lo bf hi cu w :
+  bwf lo bf hi cu -> vbot bf lo <= w -> hi <= w -> bwf lo (bf ++ [WBot w]) w cu.
+Proof.
+  revert lo. induction bf as [|[w0|k j v] r IH]; intros lo; cbn.
+  - intros; lia.
+  - intros [A B] H1 H2. split; auto.
+  - intros [A B] H1 H2. split; auto. intros E. specialize (A E). lia.
+Qed.
+Lemma bwf_app_el lo bf hi cu k j v :
+  bwf lo bf hi cu -> (k = cu -> vbot bf lo <= j <= hi) -> bwf lo (bf ++ [WEl k j v]) hi cu.
+Proof.
+  revert lo. induction bf as [|[w0|k0 j0 v0] r IH]; intros lo; cbn.
+  - intros H1 H2. split; auto.
+  - intros [A B] H. split; auto.
+  - intros [A B] H. split; auto.
+Qed.
+Lemma bwf_in lo bf hi cu j v : bwf lo bf hi cu -> In (WEl cu j v) bf -> lo <= j <= hi.
+Proof.
+  revert lo. induction bf as [|[w|k j0 v0] r IH]; intros lo; cbn; [tauto| |].
+  - intros [A B] [E|Hin]; [discriminate|]. specialize (IH _ B Hin). lia.
+  - intros [A B] [E|Hin]; [inversion E; subst; auto|]. auto.
+Qed.
+
+Definition agree (x : tso) (k : nat) (j : Z) : Prop := get (marrs x k) j = get (arrs (vw x) k) j.
+
+Definition tclause (x : tso) (T : tst) : Prop :=
+  match pc T with
+  | TArr => top (vw x) = t T -> t T < b T ->
+            agree x (cur (vw x)) (t T) /\ (forall j v, In (WEl (cur (vw x)) j v) (buf x) -> t T < j)
+  | TGet => top (vw x) = t T ->
+            agree x (a T) (t T) /\ (a T = cur (vw x) -> forall j v, In (WEl (cur (vw x)) j v) (buf x) -> t T < j)
+  | _ => True
+  end.
+
+Record TInv (x : tso) : Prop := {
+  t_lg : forall k, lg (marrs x k) = lg (arrs (vw x) k);
+  t_dat : forall k sl, dat (arrs (vw x) k) sl =
+            match lastw (fun k => lg (arrs (vw x) k)) (buf x) k sl with
+            | Some v => v | None => dat (marrs x k) sl end;
+  t_rng : forall k j v, In (WEl k j v) (buf x) -> (cur (vw x) <= k <= narr (vw x))%nat;
+  t_bot : bot (vw x) = vbot (buf x) (mbot x);
+  t_bwf : bwf (mbot x) (buf x) (bot (vw x)) (cur (vw x));
+  t_thf : forall u, u <> 0%nat -> tclause x (thr (vw x) u)
+}.
+
+Lemma drained_tinv V : TInv (drained V).
+Proof.
+  constructor; cbn [drained vw mbot marrs buf]; auto; try reflexivity.
+  - intros k j v [].
+  - cbn. lia.
+  - intros u Hu. unfold tclause, agree. cbn [drained vw mbot marrs buf].
+    destruct (pc (thr V u)); auto; intros; split; auto; intros; contradiction.
+Qed.
+
+Lemma slot_eq (A B : arr) j : lg A = lg B -> slot A j = slot B j.
+Proof. intros E. unfold slot. rewrite (asize_lg A B E). reflexivity. Qed.
+
+(* memory and view agree on a slot no buffered store targets *)
+Lemma agree_no_pending x k j : TInv x ->
+  (forall j' v, In (WEl k j' v) (buf x) -> slot (arrs (vw x) k) j' <> slot (arrs (vw x) k) j) ->
+  agree x k j.
+Proof.
+  intros TI H. unfold agree, get. rewrite (slot_eq (marrs x k) (arrs (vw x) k) j (t_lg x TI k)).
+  rewrite (t_dat x TI k). rewrite lastw_none; auto.
+Qed.
+
+Lemma bot_le_Lc s : bot s <= Lc s.
+Proof. unfold Lc. destruct (lkind (pc (thr s 0%nat))); cbn; lia. Qed.
+
+(* a pending element store of the current array at an index above a live
+   index t = top does not touch t's slot *)
+Lemma pending_other_slot x (A : arr) j tt :
+  Inv (vw x) -> asize A = asize (arrs (vw x) (cur (vw x))) ->
+  top (vw x) = tt -> tt < j -> j <= bot (vw x) ->
+  tt <> j /\ - asize A < tt - j < asize A.
+Proof.
+  intros I EA Et Hlt Hle. pose proof (i_cap _ I) as C. pose proof (bot_le_Lc (vw x)). lia.
+Qed.
+
+Lemma flush_tinv x : Inv (vw x) -> TInv x -> TInv (flush x).
+Proof.
+  intros I TI. unfold flush. destruct (buf x) as [|[w|k j v] r] eqn:Hb; auto.
+  - (* bottom store reaches memory *)
+    pose proof (t_dat x TI) as D. pose proof (t_rng x TI) as R. pose proof (t_bot x TI) as B.
+    pose proof (t_bwf x TI) as W. pose proof (t_thf x TI) as F. rewrite Hb in *. cbn in B, W.
+    constructor; cbn [vw mbot marrs buf]; auto.
+    + apply (t_lg x TI).
+    + intros k sl. rewrite (D k sl). cbn [lastw hit]. match goal with |- context [lastw ?f r k sl] => destruct (lastw f r k sl) end; reflexivity.
+    + intros k j v Hin. apply (R k j v). right; auto.
+    + tauto.
+    + intros u Hu. specialize (F u Hu). unfold tclause, agree in *. cbn [vw mbot marrs buf] in *.
+      destruct (pc (thr (vw x) u)); auto.
+      * intros E1 E2. destruct (F E1 E2) as [F1 F2]. split; auto. intros j v Hin. apply (F2 j v). rewrite Hb. right; auto.
+      * intros E1. destruct (F E1) as [F1 F2]. split; auto. intros E j v Hin. apply (F2 E j v). rewrite Hb. right; auto.
+  - (* element store reaches memory *)
+    pose proof (t_lg x TI) as G. pose proof (t_dat x TI) as D. pose proof (t_rng x TI) as R.
+    pose proof (t_bot x TI) as B. pose proof (t_bwf x TI) as W. pose proof (t_thf x TI) as F.
+    rewrite Hb in *. cbn in B, W. destruct W as [W1 W2].
+    assert (HR : (cur (vw x) <= k <= narr (vw x))%nat) by (apply (R k j v); left; reflexivity).
+    constructor; cbn [vw mbot marrs buf]; auto.
+    + intros k'. destruct (Nat.eq_dec k' k) as [->|Hne]; [rewrite upd_same; cbn; apply G|rewrite upd_other by auto; apply G].
+    + intros k' sl. rewrite (D k' sl). cbn [lastw]. match goal with |- context [lastw ?f r k' sl] => destruct (lastw f r k' sl) end; [reflexivity|].
+      unfold hit. destruct (Nat.eqb_spec k k') as [->|Hne]; cbn [andb].
+      * rewrite upd_same. unfold put, updZ; cbn [dat]. unfold slot, asize. rewrite (G k').
+        rewrite (Z.eqb_sym sl). destruct (Z.eqb_spec (j mod 2 ^ Z.of_nat (lg (arrs (vw x) k'))) sl); reflexivity.
+      * rewrite upd_other by auto. reflexivity.
+    + intros k' j' v' Hin. apply (R k' j' v'). right; auto.
+    + intros u Hu. specialize (F u Hu). unfold tclause, agree in *. cbn [vw mbot marrs buf] in *.
+      pose proof (i_loc _ I u) as LU. unfold local_ok, lok in LU.
+      destruct (pc (thr (vw x) u)) eqn:Hpc; auto.
+      * intros E1 E2. destruct (F E1 E2) as [F1 F2]. split; [|intros j' v' Hin; apply (F2 j' v'); rewrite Hb; right; auto].
+        destruct (Nat.eq_dec k (cur (vw x))) as [->|Hne]; [|rewrite upd_other by auto; exact F1].
+        rewrite upd_same. rewrite <- F1.
+        assert (Hj : t (thr (vw x) u) < j) by (apply (F2 j v); rewrite Hb; left; reflexivity).
+        destruct (W1 eq_refl) as [_ Hhi].
+        destruct (pending_other_slot x (marrs x (cur (vw x))) j (t (thr (vw x) u)) I
+                    (asize_lg _ _ (G (cur (vw x)))) E1 Hj Hhi) as [N1 N2].
+        apply get_put_other; auto.
+      * intros E1. destruct (F E1) as [F1 F2]. split; [|intros E j' v' Hin; apply (F2 E j' v'); rewrite Hb; right; auto].
+        destruct LU as (U1 & U2 & U3 & U4).
+        destruct (Nat.eq_dec k (a (thr (vw x) u))) as [->|Hne]; [|rewrite upd_other by auto; exact F1].
+        assert (Ea : a (thr (vw x) u) = cur (vw x)) by lia.
+        rewrite upd_same. rewrite <- F1.
+        assert (Hj : t (thr (vw x) u) < j) by (apply (F2 Ea j v); rewrite Hb; left; rewrite Ea; reflexivity).
+        destruct (W1 Ea) as [_ Hhi]. rewrite Ea.
+        destruct (pending_other_slot x (marrs x (cur (vw x))) j (t (thr (vw x) u)) I
+                    (asize_lg _ _ (G (cur (vw x)))) E1 Hj Hhi) as [N1 N2].
+        apply get_put_other; auto.
+Qed.
+
+(* ---- frames ---- *)
+Definition quietpc (p : pcT) : bool :=
+  match p with
+  | UArr | UGWr | UGSt | UPut | USt | OSt | OEmp | OCas | OFixW | OFixL | TCas => false
+  | _ => true
+  end.
+
+Lemma step_quiet V u : quietpc (pc (thr V u)) = true ->
+  let V' := fst (step V u) in
+  arrs V' = arrs V /\ bot V' = bot V /\ cur V' = cur V /\ top V' = top V /\ narr V' = narr V.
+Proof.
+  intros Q. unfold step. destruct (pc (thr V u)); cbn in Q; try discriminate;
+    repeat match goal with |- context [if ?c then _ else _] => destruct c end;
+    cbn [fst arrs bot cur top narr set_thr]; auto.
+Qed.
+
+Lemma tclause_frame x V' T :
+  arrs V' = arrs (vw x) -> cur V' = cur (vw x) ->
+  (top V' = top (vw x) \/ (top (vw x) < top V' /\ t T <= top (vw x))) ->
+  tclause x T -> tclause (quiet x V') T.
+Proof.
+  intros Ea Ec Ht. unfold tclause, agree. cbn [quiet vw marrs buf]. rewrite Ea, Ec.
+  destruct (pc T); auto; destruct Ht as [->|[H1 H2]]; auto; intros; lia.
+Qed.
+
+(* thread states / top change, the owner's stored locations do not *)
+Lemma tinv_thr x V' : TInv x ->
+  arrs V' = arrs (vw x) -> bot V' = bot (vw x) -> cur V' = cur (vw x) -> narr V' = narr (vw x) ->
+  (forall u, u <> 0%nat -> tclause (quiet x V') (thr V' u)) ->
+  TInv (quiet x V').
+Proof.
+  intros TI Ea Eb Ec En F. constructor; cbn [quiet vw mbot marrs buf]; auto; rewrite ?Ea, ?Eb, ?Ec, ?En; apply TI.
+Qed.
+
+Lemma tinv_quiet x V' : TInv x ->
+  arrs V' = arrs (vw x) -> bot V' = bot (vw x) -> cur V' = cur (vw x) -> top V' = top (vw x) ->
+  narr V' = narr (vw x) -> (forall u, u <> 0%nat -> thr V' u = thr (vw x) u) ->
+  TInv (quiet x V').
+Proof.
+  intros TI Ea Eb Ec Et En Eth. apply tinv_thr; auto.
+  intros u Hu. rewrite Eth by auto. apply tclause_frame; auto. apply (t_thf x TI); auto.
+Qed.
+
+(* a buffered store of bottom that does not go down *)
+Lemma tinv_bot_store x V' w : TInv x ->
+  arrs V' = arrs (vw x) -> cur V' = cur (vw x) -> top V' = top (vw x) -> narr V' = narr (vw x) ->
+  bot V' = w -> bot (vw x) <= w -> (forall u, u <> 0%nat -> thr V' u = thr (vw x) u) ->
+  TInv (buffered x V' (WBot w)).
+Proof.
+  intros TI Ea Ec Et En Eb Hle Eth.
+  constructor; cbn [buffered vw mbot marrs buf]; rewrite ?Ea, ?Ec, ?En.
+  - apply TI.
+  - intros k sl. rewrite lastw_app1. cbn [hit]. apply (t_dat x TI).
+  - intros k j v Hin. apply in_app_or in Hin. destruct Hin as [Hin|[E|[]]]; [|discriminate]. apply (t_rng x TI k j v Hin).
+  - rewrite Eb, vbot_app_bot. reflexivity.
+  - rewrite Eb. apply (bwf_app_bot _ _ (bot (vw x))); [apply TI| rewrite <- (t_bot x TI); exact Hle | exact Hle].
+  - intros u Hu. rewrite Eth by auto. pose proof (t_thf x TI u Hu) as F.
+    unfold tclause, agree in *. cbn [buffered vw mbot marrs buf]. rewrite Ea, Ec, Et.
+    destruct (pc (thr (vw x) u)); auto.
+    + intros E1 E2. destruct (F E1 E2) as [F1 F2]. split; auto. intros j v Hin.
+      apply in_app_or in Hin. destruct Hin as [Hin|[E|[]]]; [|discriminate]. eauto.
+    + intros E1. destruct (F E1) as [F1 F2]. split; auto. intros E j v Hin.
+      apply in_app_or in Hin. destruct Hin as [Hin|[E'|[]]]; [|discriminate]. eauto.
+Qed.
+
+Lemma Ls_lkind0 s : lkind (pc (thr s 0%nat)) = 0%nat -> Ls s = bot s /\ Lc s = bot s.
+Proof. intros K. unfold Ls, Lc. rewrite K. auto. Qed.
